@@ -306,6 +306,9 @@ class Scenario:
         self.next_pid += 1
         np = Payload(npid, None)
         self.payloads[npid] = np
+        if getattr(self, 'clone_unlinked', False):
+            # T::clone that does not copy the handles the value holds (a "fresh, unlinked" copy)
+            return TVal(npid)
         for hv, tgt in pl.strong:
             nv = self.call('Rc', 'Clone', 'clone', self.tmp(hv))
             np.strong.append([nv, tgt])
@@ -323,6 +326,7 @@ class Scenario:
         m = key.split('::')[-1]
         if m in ('eq', 'ne', 'lt', 'le', 'gt', 'ge', 'cmp', 'partial_cmp') and len(vals) >= 2 and all(isinstance(v, TVal) for v in vals[:2]):
             x, y = vals[0].id, vals[1].id
+            self.trace.append(['tcmp', m, x, y])
             if m in ('cmp', 'partial_cmp'):
                 o = Agg('Ordering', 'Less' if x < y else ('Equal' if x == y else 'Greater'))
                 return o if m == 'cmp' else some(o)
@@ -827,7 +831,30 @@ class Scenario:
         elif k == 'make_mut':
             x = self.h(op['h'], 'rc')
             old = x['obj']
-            p = self.call('Rc', None, 'make_mut', x['ptr'])
+            # while make_mut runs, the caller's handle is being replaced: the old handle is released inside the call
+            # (clone branch), so it must not count as "held by the program" for destructors that run in there
+            x['obj'] = None
+            try:
+                p = self.call('Rc', None, 'make_mut', x['ptr'])
+            except Panic:
+                # the handle now is whatever make_mut left in the caller's variable
+                try:
+                    nv = E.read(x['ptr'])
+                    x['obj'] = self.box2obj.get(self.ptr_of(nv).obj, old)
+                    if x['obj'] == old and self.ptr_of(nv).obj != self.objs[old].box:
+                        nb = self.ptr_of(nv).obj
+                        nidx = max(self.objs) + 1
+                        self.objs[nidx] = ObjInfo(nidx, nb)
+                        self.box2obj[nb] = nidx
+                        pv = E.heap[nb].value.fields[3] if isinstance(E.heap[nb].value, Agg) and len(E.heap[nb].value.fields) > 3 else None
+                        if isinstance(pv, TVal):
+                            self.objs[nidx].pid = pv.id
+                            self.payloads[pv.id].obj = nidx
+                        x['obj'] = nidx
+                except Exception:
+                    x['obj'] = old
+                raise
+            x['obj'] = old
             v = E.read(p)
             nv = E.read(x['ptr'])
             nb = self.ptr_of(nv).obj
@@ -965,6 +992,8 @@ class Scenario:
                 self.run_op({'op': 'drop_value', 'v': op['h']})
             else:
                 self.run_op({'op': 'drop', 'h': op['h']})
+        elif k == 'clone_mode':
+            self.clone_unlinked = (op['mode'] == 'unlinked')
         elif k == 'drop_if':
             if op['h'] in self.handles:
                 self.run_op({'op': 'drop', 'h': op['h']})
@@ -1207,6 +1236,10 @@ class Scenario:
                         if isinstance(own, Own):
                             owned.add(own.obj)
             for oid, o in self.E.heap.items():
+                if o.kind == 'map' and not getattr(o.value, 'ever_allocated', False):
+                    continue      # a table that never held an entry owns no heap memory
+                if o.kind == 'vec' and not o.meta.get('cap', 0):
+                    continue
                 if o.live and o.kind in ('box', 'heap', 'map', 'vec') and oid not in owned:
                     what = self.box2obj.get(oid)
                     if what is not None:
